@@ -426,9 +426,12 @@ class Recorder:
         self.inside = False
 
     def _clock_ps(self, ioport):
-        for port, freq in self.rm.iter_port_clock_constraints():
-            if port is ioport:
-                return int(round(1e12 / freq))
+        try:
+            for port, freq in self.rm.iter_port_clock_constraints():
+                if port is ioport:
+                    return int(round(1e12 / freq))
+        except Exception:  # noqa: BLE001 -- the public listing of clock constraints failed: no declared period can
+            return -1      #                  be observed (never equal to what the specification expects)
         return 0
 
     def _flatten(self, v, path, out, q):
@@ -1140,14 +1143,15 @@ def run(ctx):
         s3 = json.loads(json.dumps(s))
         s3[-1]["lines"].append(dict(s3[-1]["lines"][0]))
         demo.append((t, s3))
-    if good is None or goodb is None:
+    if (good is None or goodb is None) and not ctx.violations:
         raise MachineryError("binding demo: no accepted trace to corrupt")
-    vs = _validate(ctx, None, demo, "binding-demo", count_states=False)
-    ctx.cov["traces_validated_against_impl"] -= len(demo)
-    if any(v[0] != "REJ" for v in vs):
-        raise MachineryError("binding demo: corrupted traces were accepted: %r" % (vs,))
-    mark("binding_demo")
-    ctx.cov["stages"]["binding-demo/validate"]["corrupted_rejected"] = [str(v[2]) for v in vs]
+    if demo:     # (when the implementation itself is being rejected there may be no accepted trace to corrupt)
+        vs = _validate(ctx, None, demo, "binding-demo", count_states=False)
+        ctx.cov["traces_validated_against_impl"] -= len(demo)
+        if any(v[0] != "REJ" for v in vs):
+            raise MachineryError("binding demo: corrupted traces were accepted: %r" % (vs,))
+        mark("binding_demo")
+        ctx.cov["stages"]["binding-demo/validate"]["corrupted_rejected"] = [str(v[2]) for v in vs]
 
     ctx.cov["exhaustive"] = False
     ctx.cov["rule"] = ("cases = executions of the real ResourceManager/Platform: tour walks covering every edge of the ResMgr "
